@@ -192,6 +192,8 @@ func vFamilies(thorough bool) []map[string][]vRule {
 		// the back-reference rule of a pushed state arrives through an include; a named rule with the empty pattern
 		map[string][]vRule{"Root": {{"Open", `<([a-z])>`, "push:Body"}, ws}, "Body": {inc("Term"), {"Text", `[a-z]`, ""}}, "Term": {{"End", `</\1>`, "pop"}}},
 		map[string][]vRule{"Root": {id, {"Kw", "", ""}, ws}},
+		// a pattern that itself spells one of the escapes encoding/json uses for <, > and &
+		map[string][]vRule{"Root": {id, {"Esc", `\\u003c|<&>`, ""}, ws}},
 		// names and patterns that begin or end with white space
 		map[string][]vRule{"Root": {id, {"Sp", " +", ""}, {"Tab", "\t", ""}, {" Lead", "x ", ""}, {"Nb", "\u00a0", ""}}},
 		// state names that look like action kinds, and the empty state name
@@ -402,7 +404,7 @@ func TestVerif_C16_JSON(t *testing.T) {
 	res := &verifResult{Check: "lexer JSON round trip", Property: "C16", Exhaustive: true,
 		Bound: "the rule maps of TestVerif_C03C04C07_New that New accepts; the caller's rule map is edited after New (a pattern changed, a rule prepended to every state, a state added) before the definition is marshalled; token streams compared on 16 inputs up to 7 bytes",
 		Rule: "distinct accepted rule maps; non-trivial = contains an action, include or return"}
-	inputs := []string{"", "a", "ab c", "(a)", "((a))b", ")", "a_b", "b", "xxb", "< a", "\"q\"", "é1", "rr a", "a (a) r", "a;b", "q w", "a  x \t", "x a", "<t>x</t>", "<t>x</u> ", "Kw", "1"}
+	inputs := []string{"", "a", "ab c", "(a)", "((a))b", ")", "a_b", "b", "xxb", "< a", "\"q\"", "é1", "rr a", "a (a) r", "a;b", "q w", "a  x \t", "x a", "<t>x</t>", "<t>x</u> ", "Kw", "1", "a \\u003c <&>"}
 	seen := map[string]bool{}
 	for _, states := range vFamilies(verifThorough()) {
 		if includeCycle(states) {
